@@ -71,6 +71,10 @@ class CodeGenerator:
         self.gen_stmt(unit.main_code)
 
         self.emit(ir.Exit())
+
+        # Remove unreachable blocks, as is done for subroutines
+        # (if true then ... leaves the other branch unreachable):
+        ir_function.delete_unreachable()
         self.builder.set_function(None)
 
     def _define_builtins(self):
